@@ -11,6 +11,7 @@ import (
 
 	"github.com/mit-pdos/go-journal/vrt"
 	"github.com/mit-pdos/go-nfsd/fstxn"
+	"github.com/mit-pdos/go-nfsd/inode"
 	"verif/fsx"
 	"verif/par"
 	"verif/reffs"
@@ -124,7 +125,7 @@ func (w *World) defaultKey() string {
 	sort.Strings(ps)
 	for _, p := range ps {
 		n := md[p]
-		fmt.Fprintf(h, "%s|%d|%d|%s|%d|%s|%s|%d;", p, n.Kind, n.Size, n.FH, n.Fileid, n.Data, n.Target, n.Mtime)
+		fmt.Fprintf(h, "%s|%d|%d|%s|%d|%s|%s|%d|%d;", p, n.Kind, n.Size, n.FH, n.Fileid, n.Data, n.Target, n.Mtime, n.Atime)
 	}
 	var dead []string
 	for fh := range w.Model.Seen {
@@ -165,9 +166,25 @@ func (w *World) defaultKey() string {
 	}
 	st := w.Srv.VerifFsState()
 	fmt.Fprintf(h, "next:%d,%d;", st.Balloc.VerifNext(), st.Ialloc.VerifNext())
+	// the inode cache with its contents (a cached inode or name cache that differs from the disk is state)
 	var ids []string
 	st.Icache.VerifEach(func(id uint64, obj interface{}) {
-		ids = append(ids, fmt.Sprintf("%d:%v", id, obj != nil))
+		if obj == nil {
+			ids = append(ids, fmt.Sprintf("%d:-", id))
+			return
+		}
+		ip := obj.(*inode.Inode)
+		e := fmt.Sprintf("%d:%d/%d/%d/%d/%d/%v/%v/%v", id, ip.Kind, ip.Nlink, ip.Gen, ip.Size, ip.ShrinkSize, ip.Atime, ip.Mtime, ip.VerifBlks())
+		if ip.Dcache != nil {
+			ents := ip.Dcache.VerifEntries()
+			var ns []string
+			for n, d := range ents {
+				ns = append(ns, fmt.Sprintf("%s>%d@%d", n, d.Inum, d.Off))
+			}
+			sort.Strings(ns)
+			e += fmt.Sprintf("/dc%d:%v", ip.Dcache.Lastoff, ns)
+		}
+		ids = append(ids, e)
 	})
 	sort.Strings(ids)
 	fmt.Fprintf(h, "icache:%v", ids)
